@@ -45,3 +45,34 @@ pub fn swap256(a: &mut [u8; 256], i: usize, j: usize)
 { a.swap(i, j) }
 pub fn min_len(a: &[u8], b: &Vec<u8>) -> (r: usize) ensures r == (if a@.len() <= b@.len() { a@.len() } else { b@.len() })
 { if a.len() <= b.len() { a.len() } else { b.len() } }
+
+// =====================================================================================
+// PKCS#5 / PKCS#7 padding (RFC 2898 6.1.1): pad with n bytes of value n
+// =====================================================================================
+pub struct Pkcs5;
+pub struct UnpadError;
+pub fn panic_unreachable() requires false { }
+pub open spec fn padded(b: Seq<u8>, pos: int) -> Seq<u8> { Seq::new(b.len(), |i: int| if i < pos { b[i] } else { (b.len() - pos) as u8 }) }
+pub open spec fn unpadded(b: Seq<u8>) -> Option<Seq<u8>> {
+    let n = b[b.len() - 1];
+    if n == 0 || n as int > b.len() { None }
+    else if exists|i: int| b.len() - n as int <= i < b.len() - 1 && b[i] != n { None }
+    else { Some(b.subrange(0, b.len() - n as int)) }
+}
+#[verifier::external_body]
+pub fn any_ne(block: &[u8], a: usize, b: usize, n: u8) -> (r: bool)
+    requires a <= b <= block@.len()
+    ensures r == exists|i: int| a <= i < b && block@[i] != n
+{ block[a..b].iter().any(|&v| v != n) }
+#[verifier::external_body]
+pub fn prefix(block: &[u8], s: usize) -> (r: &[u8]) requires s <= block@.len() ensures r@ == block@.subrange(0, s as int) { &block[..s] }
+// unpad(pad(b, pos)) == b[..pos]
+pub proof fn lemma_pad_unpad(b: Seq<u8>, pos: int)
+    requires 1 <= b.len() <= 16, 0 <= pos < b.len()
+    ensures unpadded(padded(b, pos)) == Some(b.subrange(0, pos))
+{
+    let p = padded(b, pos);
+    let n = p[p.len() - 1];
+    assert(n == (b.len() - pos) as u8);
+    assert(p.subrange(0, p.len() - n as int) =~= b.subrange(0, pos));
+}
